@@ -830,6 +830,20 @@ theorem C16_crashMatch_rec {P : Params} (vals : List (Option Int)) (tr : Train) 
     Rec P vals tr (exec (crashDisk d L obs tornOp) unwind) :=
   c16_crashMatch_rec vals tr d hrec k hk hlt hs hsep rm obs tornOp L hm hat unwind hu
 
+/-- **The same for a COMPLETED update** (audit F: the `trace_ok` of a completed update is `fullMatch`, about which
+nothing was proved). The effective file-system changes an implementation was seen to make in a completed
+checkpoint-first update of a recoverable disk are accepted by `fullMatch` only if they leave `k+1` epochs recorded
+and recoverable, and a disk no controller can tell from the one the driver computes and goes on with
+(`exec d (opsOf main cl)`: the pinned order of the save, the clean-up in the planned order). -/
+theorem C16_fullMatch_rec {P : Params} (vals : List (Option Int)) (tr : Train) (d : Disk) (k : Nat)
+    (hrec : RecAt P vals tr d k) (hlt : k < vals.length) (hs : SafeAt P vals k) (hsep : Sep P vals k)
+    (rm : List Path) (obs : List FsOp)
+    (hm : fullMatch (updateOrders Quirks.fixed P vals k d (U tr (k + 1)) rm) d obs = true) :
+    RecAt P vals tr (exec d obs) (k + 1) ∧
+      (exec d obs).Eqv
+        (exec d (opsOf (mainOps Quirks.fixed P vals k d (U tr (k + 1))) (cleanSet P vals k d))) :=
+  c16_fullMatch_rec vals tr d k hrec hlt hs hsep rm obs hm
+
 /-- A process lifetime that ends in a kill — new controller, load, any number of complete updates, any number
 of calls of the next one (possibly inside a `torch.save`), EVERY update in any admitted order — leaves a
 recoverable disk. -/
@@ -888,7 +902,7 @@ example := C16_rec_full_any_order exVals exTr exD1 1 (recAt_of_recOk (by decide)
 
 /-- the matcher on an observation as the harness makes it: no-op calls dropped, the model's temp file created
 and written, the optimizer's created and half-written, both removed again while the interrupt unwinds -/
-example : (crashMatch (updateOrders Quirks.fixed exP exVals 1 exD1 (U exTr 2) []) exD1
+theorem exMatch_isSome : (crashMatch (updateOrders Quirks.fixed exP exVals 1 exD1 (U exTr 2) []) exD1
     [.mktemp 1, .write 1 (.model 5), .mktemp 2] (some (.write 2 .torn))).isSome = true := by
   simp [crashMatch, updateOrders, planUpdate, mainOrders, saveOrders, shuffles, pipeM, pipeO, effective, FsOp.noop,
     opsOf, histOps, histLines, reorder]
@@ -944,5 +958,124 @@ example := C16_resume_any_order exVals (exP_inj.safeFmt exVals) exTr (by decide)
 example : exK1.files.get (.optim 1) = some (.optim ⟨1, 0⟩) ∧ exK1.files.get (.model 1) = none ∧
     exK1.files.get (.tmp 0) = some .empty ∧ exK1.csv = none ∧
     exR3.csv = some [.header, .row 1, .row 2, .row 3] ∧ recOk exP exVals exTr exR3 = true := by decide
+
+/-! ## audit F: the theorems of improvement rounds 3 and 4 applied with ALL their hypotheses together
+
+Before: `C16_crashMatch_rec` was only applied under the ASSUMPTION that the matcher accepts (`hm` a hypothesis of
+the example, next to a separate `isSome` evaluation); `C16_exact_step`, `C16_exact_step_any_order`,
+`C16_keepall_step_any_order`, `C16_save_orders`, `C16_save_any_order_same_disk`, `C16_rounding_consistent`,
+`C16_exact_nocrash_rounded`, `C16_resume_rounded` had `decide`-evaluations of the model next to them but no
+application of the theorem. -/
+
+/-- the matcher accepts AND the theorem applies: the observation above (a half-written optimizer temp file,
+both temp files removed while the interrupt unwinds) -/
+example : ∃ L, crashMatch (updateOrders Quirks.fixed exP exVals 1 exD1 (U exTr 2) []) exD1
+      [.mktemp 1, .write 1 (.model 5), .mktemp 2] (some (.write 2 .torn)) = some L ∧
+    Rec exP exVals exTr (exec (crashDisk exD1 L [.mktemp 1, .write 1 (.model 5), .mktemp 2] (some (.write 2 .torn)))
+      [.remove (.tmp 2), .remove (.tmp 1)]) := by
+  obtain ⟨L, hL⟩ := Option.isSome_iff_exists.1 exMatch_isSome
+  exact ⟨L, hL, C16_crashMatch_rec exVals exTr exD1 exD1_rec 1 (by decide) (by decide) (exP_inj.safeAt exVals 1)
+    (exP_inj.sep exVals 1) [] _ _ L hL (by decide) _ (by decide)⟩
+
+/-- a kill with no torn call, inside the clean-up: the save seen in the order `exSvX` (no-op calls dropped), the
+history row, the removals in the reverse of the planned order -/
+def exObsC : List FsOp :=
+  [.mktemp 1, .mktemp 2, .write 1 (.model 5), .write 2 (.optim ⟨7, 1⟩), .replace 2 (.optim 2), .replace 1 (.model 2),
+   .hwrite (.row 2), .remove (.optim 1)]
+
+theorem exMatchC_isSome : (crashMatch (updateOrders Quirks.fixed exP exVals 1 exD1 (U exTr 2) [.optim 1]) exD1
+    exObsC none).isSome = true := by
+  simp [crashMatch, updateOrders, planUpdate, mainOrders, saveOrders, shuffles, pipeM, pipeO, effective, FsOp.noop,
+    opsOf, histOps, histLines, reorder, exObsC]
+  decide
+
+example : ∃ L, crashMatch (updateOrders Quirks.fixed exP exVals 1 exD1 (U exTr 2) [.optim 1]) exD1 exObsC none = some L ∧
+    Rec exP exVals exTr (exec (crashDisk exD1 L exObsC none) []) ∧
+    crashDisk exD1 L exObsC none = exec exD1 exObsC ∧ recorded (exec exD1 exObsC) = some 2 ∧
+    (exec exD1 exObsC).files.get (.optim 1) = none ∧
+    (exec exD1 exObsC).files.get (.model 1) = some (.model 1) := by
+  obtain ⟨L, hL⟩ := Option.isSome_iff_exists.1 exMatchC_isSome
+  exact ⟨L, hL, C16_crashMatch_rec exVals exTr exD1 exD1_rec 1 (by decide) (by decide) (exP_inj.safeAt exVals 1)
+    (exP_inj.sep exVals 1) _ _ _ L hL (by decide) _ (by decide), rfl, by decide, by decide, by decide⟩
+
+/-- `C16_fullMatch_rec`: the completed update seen the same way (both removals, reverse order) -/
+def exObsF : List FsOp := exObsC ++ [.remove (.model 1)]
+
+example : RecAt exP exVals exTr (exec exD1 exObsF) 2 :=
+  (C16_fullMatch_rec exVals exTr exD1 1 (recAt_of_recOk (by decide) (by decide)) (by decide)
+    (exP_inj.safeAt exVals 1) (exP_inj.sep exVals 1) [.optim 1, .model 1] exObsF (by
+      simp [fullMatch, updateOrders, planUpdate, mainOrders, saveOrders, shuffles, pipeM, pipeO, effective, FsOp.noop,
+        opsOf, histOps, histLines, reorder, exObsF, exObsC]
+      decide)).1
+
+/-- `C16_save_orders` / `C16_save_any_order_same_disk` on an order that is not the pinned one, on the disk with
+garbage: `exSvX` is enumerated, and leaves what the pinned order leaves -/
+example : exSvX ∈ saveOrders exP exD1 2 (U exTr 2) := (C16_save_orders exP exD1 2 (U exTr 2) exSvX).1.2 exSvX_shuffle
+example := C16_save_any_order_same_disk exSvX_shuffle exD1
+example : (exec exD1 exSvX).files.get (.model 2) = some (.model 5) ∧
+    (exec exD1 exSvX).files.get (.optim 2) = some (.optim ⟨7, 1⟩) ∧ (exec exD1 exSvX).files.get (.tmp 1) = none := by
+  decide
+
+/-- the disk after epoch 1 of the crash-free keep-last-and-best run: exactly the files of epoch 1 -/
+def exDe : Disk := (runLoop Quirks.fixed exP exVals exTr 1 0 St.init Disk.blank).2.2
+
+theorem exDe_exact : ExactLB exP exVals exDe 1 := by
+  obtain ⟨d, h, hex, _⟩ := C16_exact_nocrash exP_inj rfl exVals exTr 1 (by decide)
+  have h' : runLoop Quirks.fixed exP exVals exTr 1 0 St.init Disk.blank = (1, U exTr 1, d) := h
+  have : exDe = d := by unfold exDe; rw [h']
+  rw [this]; exact hex
+
+theorem exDe_clean : cleanSet exP exVals 1 exDe = [.model 1, .optim 1] := by decide
+
+/-- `C16_exact_step` with all hypotheses where the clean-up removes something: epoch 2 is the new best, the files
+of epoch 1 go, in the reverse of the planned order -/
+example : ExactLB exP exVals (exec exDe (opsOf
+    (saveOps exP exDe 2 (U exTr 2) ++ histOps Quirks.fixed exDe 2) [.optim 1, .model 1])) 2 :=
+  C16_exact_step exP_inj rfl exVals exTr exDe 1 exDe_exact (by decide) _ [.model 1, .optim 1] rfl
+    [.optim 1, .model 1] (fun p => by simp only [List.mem_cons, List.not_mem_nil, or_false]; exact or_comm)
+
+/-- `C16_exact_step_any_order` likewise, the optimizer's pipeline completely before the model's -/
+example : ExactLB exP exVals (exec exDe (opsOf
+    ((pipeO exP exDe 2 (U exTr 2) ++ pipeM exP exDe 2 (U exTr 2)) ++ histOps Quirks.fixed exDe 2)
+    [.optim 1, .model 1])) 2 :=
+  C16_exact_step_any_order exP_inj rfl exVals exTr exDe 1 exDe_exact (by decide) _ (Shuffle.append_swap _ _)
+    [.optim 1, .model 1] (fun p => by
+      rw [exDe_clean]; simp only [List.mem_cons, List.not_mem_nil, or_false]; exact or_comm)
+
+example : (exec exDe (opsOf ((pipeO exP exDe 2 (U exTr 2) ++ pipeM exP exDe 2 (U exTr 2)) ++
+    histOps Quirks.fixed exDe 2) [.optim 1, .model 1])).files.get (.model 1) = none ∧ bestOf (exVals.take 2) = 2 := by
+  decide
+
+/-- `C16_keepall_step_any_order`: keep everything, the disk after epoch 1, optimizer first, killed after the
+optimizer's rename and before the model's temp file is written (call 6) -/
+example := C16_keepall_step_any_order (P := exPall) ⟨fun _ _ h => h, fun _ _ h => h⟩ rfl exVals exTr exDa 1
+  ⟨recAt_of_recOk (by decide) (by decide), by intro j h1 h2; have : j = 1 := by omega
+                                              subst this; decide⟩
+  (by decide) (pipeO exPall exDa 2 (U exTr 2) ++ pipeM exPall exDa 2 (U exTr 2)) (Shuffle.append_swap _ _) 6
+
+/-- the `_rounded` theorems applied, on the history whose second epoch is lower than the first only beyond the
+recorded digits (a controller started after epoch 1 caches something else than one started after epoch 2, and
+neither caches the raw column); `C16_resume_rounded` from the disk with garbage, two killed sessions, one torn -/
+example := C16_rounding_consistent (Rounding.both_consistent sig5_idem) exRaw 1
+example : memVals (Rounding.both sig5) exRaw 1 ≠ exRaw ∧ cacheVals (Rounding.both sig5) exRaw 1 ≠
+    cacheVals (Rounding.both sig5) exRaw 2 := by decide
+example := C16_exact_nocrash_rounded exP_inj rfl (Rounding.both_consistent sig5_idem) exRaw exTr 2 (by decide)
+example := C16_resume_rounded (P := exP) (Rounding.both_consistent sig5_idem) exRaw (exP_inj.safeFmt _) exTr exD1
+  (recOk_sound (by decide)) [(0, 7, false), (1, 2, true)]
+
+/-- `C16_rec_step_rounded` where the rounding decides (its earlier instance was the first update of the blank disk):
+the update of epoch 2 on the disk with garbage `exD1`, planned by a controller started after epoch 1. Epoch 2's raw
+metric is lower than epoch 1's, the recorded ones tie: the best stays epoch 1 and nothing is cleaned up — on the raw
+values the plan would remove epoch 1's files. Killed after the data row (call 10 of 10). -/
+example : Rec exP (fileVals (Rounding.both sig5) exRaw) exTr (exec exD1 ((opsOf
+    (saveOps exP exD1 2 (U exTr 2) ++ histOps Quirks.fixed exD1 2) []).take 10)) :=
+  C16_rec_step_rounded (P := exP) (Rounding.both_consistent sig5_idem) exRaw 1 exTr exD1
+    (recOk_sound (by decide)) 1 (by decide) (by decide) (exP_inj.safeAt _ 1) (exP_inj.sep _ 1)
+    (saveOps exP exD1 2 (U exTr 2) ++ histOps Quirks.fixed exD1 2) [] rfl [] (fun _ h => h) 10
+
+example : cleanSet exP (memVals (Rounding.both sig5) exRaw 1) 1 exD1 = [] ∧
+    cleanSet exP exRaw 1 exD1 = [.model 1, .optim 1] ∧
+    recorded (exec exD1 ((opsOf (saveOps exP exD1 2 (U exTr 2) ++ histOps Quirks.fixed exD1 2) []).take 10)) = some 2 := by
+  decide
 
 end PdtVerif.Checkpoint
